@@ -206,7 +206,7 @@ pub fn run(g: &str, input: &str) -> Outcome {
     let (g2, i2) = (g.to_string(), input.to_string());
     std::thread::spawn(move || { let _ = tx.send(once(g2, i2)); });
     let expected = "exactly the minimum-cost repair sequences that parse furthest, none ending in a shift, none twice".to_string();
-    match rx.recv_timeout(Duration::from_millis(8000)) {
+    match rx.recv_timeout(crate::tmo(8000)) {
         Ok(Ok(d)) => Outcome { fails: false, observed: d, expected },
         Ok(Err(d)) => Outcome { fails: d != "grammar" && d != "table" && d != "lexer", observed: d, expected },
         Err(_) => Outcome { fails: false, observed: "timeout (not counted)".into(), expected },
